@@ -13,7 +13,7 @@ use super::{CacheWeight, SampledKey, WeightedKey};
 use crate::cache::key_description::KeyDescription;
 use crate::cache::stats::ConcurrentStatsCounter;
 use crate::cache::types::{KeyId, Weight};
-use crate::verif_stubs::verif_harness;
+use crate::verif_stubs::{verif_harness, InsertAt};
 
 #[derive(Copy, Clone)]
 pub(crate) struct Entry { pub id: KeyId, pub key: u64, pub hash: u64, pub weight: Weight }
